@@ -285,6 +285,32 @@ func runHeader(m *hdrModel, rules []c49Rule, phase, path string) (applied int) {
 
 // redirectModel returns the expected Location for the first matching rule.
 // open=true: the docs do not define the outcome for this request.
+// hostRelativeClean: s is a host-relative reference ("/path[?query]") whose path has
+// no empty, "." or ".." segment. Such a target needs no normalisation, so the Location
+// is the target itself, byte for byte (path, trailing slash and query included).
+func hostRelativeClean(s string) bool {
+	if !strings.HasPrefix(s, "/") || strings.HasPrefix(s, "//") {
+		return false
+	}
+	p := s
+	if i := strings.IndexByte(s, '?'); i >= 0 {
+		p = s[:i]
+	}
+	if strings.ContainsAny(p, "#") {
+		return false
+	}
+	segs := strings.Split(p[1:], "/")
+	for i, seg := range segs {
+		if seg == "." || seg == ".." {
+			return false
+		}
+		if seg == "" && i != len(segs)-1 {
+			return false
+		}
+	}
+	return true
+}
+
 func redirectModel(rules []c49Rule, host, target string) (redirect bool, status int, location string, open bool, cmd string) {
 	rawPath, rawQuery, _ := splitTarget(target)
 	path, _ := pctDecode(rawPath, false)
@@ -305,11 +331,14 @@ func redirectModel(rules []c49Rule, host, target string) (redirect bool, status 
 					break
 				}
 			}
-			if !found || !(strings.HasPrefix(location, "http://") || strings.HasPrefix(location, "https://")) {
-				open = true // no such query / value is not an absolute URL: not documented
+			if !found || !(strings.HasPrefix(location, "http://") || strings.HasPrefix(location, "https://") || hostRelativeClean(location)) {
+				open = true // no such query / value is neither an absolute URL nor a clean host-relative one: not documented
 			}
 		case "URL_PREFIX_ADD": // "Redirect to URL concatenated by specified prefix and the original URL"
 			location = a.Params[0] + target
+			if !strings.Contains(a.Params[0], "://") && !hostRelativeClean(location) {
+				open = true
+			}
 		case "SCHEME_SET": // "Redirect to the original URL but with scheme changed"
 			location = a.Params[0] + "://" + host + target
 		}
